@@ -24,12 +24,12 @@ import (
 	"testing"
 	"time"
 
-	vmux "verif/internal/vsgen/multiplexing"
 	"verif/internal/vr"
 	"verif/internal/vsched"
 	"verif/internal/vsched/vcontext"
 	"verif/internal/vsched/vsync"
 	"verif/internal/vsched/vtime"
+	vmux "verif/internal/vsgen/multiplexing"
 )
 
 // ---------------------------------------------------------------------------
